@@ -50,6 +50,8 @@ func realMain() {
 		if cs.Seq.Lazy || cs.Mode == "lazy" {
 			cs.Seq.Lazy = true
 			runLazy(c, &cs.Seq)
+		} else if cs.Mode == "staged" {
+			stagedOne(c, &cs.Seq, cs.Index/10000, cs.Index%10000, -1)
 		} else if cs.Mode == "crash" {
 			runCrash(c, &cs.Seq, cs.Index)
 		} else {
@@ -59,7 +61,7 @@ func realMain() {
 		c.Finish("replay")
 	}
 	rng := hx.NewRNG(c.Seed)
-	nShort, nPebble, nBoundary, lenShort, lenB := 5, 1, 2, 10, 8 // quick: 2 random window-end sequences per backend (was 3) since the lazy-first-use family added 2 directed ones
+	nShort, nPebble, nBoundary, lenShort, lenB := 4, 1, 2, 10, 8 // quick: 2 random window-end sequences per backend (was 3) since the lazy-first-use family added 2 directed ones
 	if c.Thorough() {
 		nShort, nPebble, nBoundary, lenShort, lenB = 60, 20, 25, 14, 10
 	}
@@ -70,8 +72,11 @@ func realMain() {
 		wall[family] += time.Since(t0).Seconds()
 	}
 	for _, ns := range []bool{false, true} {
-		for _, s := range directed(ns) {
+		for i, s := range directed(ns) {
 			timed("directed", func() { runSeq(c, s) })
+			if i < 3 || c.Thorough() { // staged-write faults (one Put / Delete inside the batch fails) on the first directed histories
+				timed("staged-write-faults", func() { runStaged(c, s) })
+			}
 		}
 		for _, s := range lazySeqs(ns) {
 			timed("lazy-first-use", func() { runLazy(c, s) })
